@@ -107,6 +107,27 @@ class _Boom(RuntimeError):
     """The failure injected at the k-th fit / predict call."""
 
 
+def _lab(v, lt):
+    """kind 'typedcsv': the label / value an integer v stands for under label type lt"""
+    import numpy as np
+    if lt == "strnum":
+        return str(int(v))                 # '3'   (UEA class labels look like this)
+    if lt == "strpad":
+        return "%02d" % int(v)             # '03'
+    if lt == "str":
+        return "c%d" % int(v)              # 'c3'  (positive control: survives a CSV)
+    if lt == "f32":
+        return np.float32(int(v) / 7.0)    # a float32 that is not a short decimal
+    raise AssertionError(lt)
+
+
+def _unlab(v):
+    """inverse of _lab for the doubles' fit (labels back to the integer they stand for)"""
+    if isinstance(v, str):
+        return int("".join(ch for ch in v if ch.isdigit() or ch == "-"))
+    return int(v)
+
+
 def _feat(X):
     return [int(X.iloc[i, 0].iloc[0]) for i in range(len(X))]
 
@@ -119,7 +140,7 @@ def _make_doubles():
     def fit(self, X, y):
         CALLS["fit"] += 1
         xs = _feat(X)
-        ys = [int(v) for v in y]
+        ys = [_unlab(v) for v in y]
         CALLS["log"].append([1, self.p, xs, ys])
         if CALLS["fail"] == ["fit", CALLS["fit"]]:
             raise _Boom("fit %d" % CALLS["fit"])
@@ -138,6 +159,9 @@ def _make_doubles():
             raise _Boom("predict %d" % CALLS["predict"])
         reg = self._reg
         out = [_dbl_pred(reg, self.p, self.state_, x) for x in xs]
+        if CALLS.get("labeltype"):                   # kind 'typedcsv': typed labels / float32
+            lt = CALLS["labeltype"]
+            return np.array([_lab(v, lt) for v in out], dtype=np.float32 if lt == "f32" else None)
         if CALLS.get("scale"):                       # kind 'floatcsv': genuinely fractional floats
             return np.array([_fl(v, CALLS["scale"]) for v in out], dtype=float)
         return np.array(out, dtype=float if reg else int)
@@ -343,6 +367,15 @@ def gen_cases(rng, tier):
         if i % 3 != 2:
             g["datasets"][0]["yscale"] = [rng.choice([7, 3, 10, 1000003]), rng.choice([0, 0, -5, 60, -1060])]
         add("floatcsv", "hdd", g, [_run(True, None, on_train=True)])
+    # 7. typed values through the stores (oracle only): string class labels that look like numbers
+    #    ('3', '03'), plain string labels ('c3', positive control), float32 predictions; on disk
+    #    and in memory (RAMResults keeps the objects: positive control)
+    for i in range(8 if not thorough else 32):
+        lt = ["strnum", "strpad", "str", "f32"][i % 4]
+        g = _grid(rng, 1, 1, ("kfold", 2), task="tsr" if lt == "f32" else "tsc", n_lo=6, n_hi=8)
+        g["labeltype"] = lt
+        g["datasets"][0]["labeltype"] = lt
+        add("typedcsv", "hdd" if i < 4 or i % 2 else "ram", g, [_run(True, None, on_train=True)])
     return cases
 
 
@@ -359,7 +392,10 @@ def _build_data(ds, task):
     for i in range(n):
         X.iloc[i, 0] = pd.Series(np.arange(4, dtype=float) + ds["xs"][i])
     data = X.copy()
-    if ds.get("yscale"):                             # kind 'floatcsv': fractional true values too
+    if ds.get("labeltype"):                          # kind 'typedcsv': string labels (f32: float targets)
+        lt = ds["labeltype"]
+        data["target"] = [float(v) for v in ds["ys"]] if lt == "f32" else [_lab(v, lt) for v in ds["ys"]]
+    elif ds.get("yscale"):                           # kind 'floatcsv': fractional true values too
         data["target"] = [_fl(v, ds["yscale"]) for v in ds["ys"]]
     else:
         data["target"] = [float(v) for v in ds["ys"]] if task == "tsr" else [int(v) for v in ds["ys"]]
@@ -393,7 +429,12 @@ def _dname(i):
 def _num(v):
     """Canonical integer of a stored / loaded value; a non-integral float is kept as a string so
     that it can never compare equal to a model value."""
-    f = float(v)
+    try:
+        f = float(v)
+    except (TypeError, ValueError):
+        return "s:%s" % (v,)
+    if f != f or f in (float("inf"), float("-inf")):
+        return repr(f)
     return int(f) if f == int(f) else repr(f)
 
 
@@ -506,7 +547,13 @@ def _observe_ram(results, before):
     return sorted(files), sorted(written), None, unexpected, deleted, {}
 
 
-def _observe_loaded(results, n_folds, float_raw=False):
+def _typed(v):
+    """[python type name, repr] of a stored / loaded value (numpy scalars through .item())"""
+    v = v.item() if hasattr(v, "item") else v
+    return [type(v).__name__, repr(v)]
+
+
+def _observe_loaded(results, n_folds, float_raw=False, typed=False):
     out = []
     for f in range(n_folds):
         for it, part in ((0, "train"), (1, "test")):
@@ -516,6 +563,8 @@ def _observe_loaded(results, n_folds, float_raw=False):
                     # float_raw: the exact doubles (hex), no canonicalisation, no tolerance
                     yp = [float(v).hex() for v in p.y_pred] if float_raw else [_num(v) for v in p.y_pred]
                     yt = [float(v).hex() for v in p.y_true] if float_raw else [_num(v) for v in p.y_true]
+                    if typed:
+                        yp, yt = [_typed(v) for v in p.y_pred], [_typed(v) for v in p.y_true]
                     recs.append([int(p.strategy_name[1:]), int(p.dataset_name[1:]),
                                  [_num(v) for v in p.index], yt, yp])
                 out.append([f, it, sorted(recs)])
@@ -543,6 +592,7 @@ def _run_history(case, path):
     cur_sel = None
     outs = []
     scale = case.get("scale")
+    labeltype = case.get("labeltype")
     # the folds, from a cv.split call that is independent of the orchestrator
     cv0 = _make_cv(case["cv"])
     folds = []
@@ -564,7 +614,7 @@ def _run_history(case, path):
                 os.utime(os.path.join(path, rel), ns=(SENTINEL_NS, SENTINEL_NS))
         else:
             before = dict(res.results)
-        CALLS.update(fit=0, predict=0, fail=r["fail"], log=[], scale=scale)
+        CALLS.update(fit=0, predict=0, fail=r["fail"], log=[], scale=scale, labeltype=labeltype)
         try:
             orch.fit_predict(overwrite_predictions=r["ow_pred"], predict_on_train=r["on_train"],
                              save_fitted_strategies=r["save_fit"],
@@ -590,7 +640,7 @@ def _run_history(case, path):
              "reg": [sorted(int(x[1:]) for x in res.strategy_names),
                      sorted(int(x[1:]) for x in res.dataset_names)],
              "unexpected": unexpected, "deleted": deleted,
-             "loaded": _observe_loaded(res, n_folds, float_raw=bool(scale))}
+             "loaded": _observe_loaded(res, n_folds, float_raw=bool(scale), typed=bool(labeltype))}
         if scale:
             o["raw_pred"] = raw
         outs.append(o)
@@ -661,6 +711,8 @@ def oracle(case, out):
         return f
     if case["kind"] == "floatcsv":
         return _oracle_float(case, out)
+    if case["kind"] == "typedcsv":
+        return _oracle_typed(case, out)
     exp = _expected(case, folds)
     grid3_all = sorted({k[:3] for k in exp})
     # arguments of a fit call -> the task it belongs to; the parts of a task by their instances
@@ -889,9 +941,61 @@ def _oracle_float(case, out):
     return None
 
 
+def _same_up_to_type(got, want):
+    """a CSV keeps text, not types: a string label that spells an integer comes back as that
+    integer; a float32 comes back as the double of its shortest decimal repr (which rounds back to
+    the same float32).  Anything else is a different VALUE."""
+    import ast as _ast
+    import numpy as np
+    (gt, gr), (wt, wr) = got, want
+    g, w = _ast.literal_eval(gr), _ast.literal_eval(wr)
+    if wt == "str" and gt == "int":
+        try:
+            return int(w) == g
+        except ValueError:
+            return False
+    if wt == "float" and gt == "float":
+        return bool(np.float32(g) == np.float32(w))
+    return False
+
+
+def _oracle_typed(case, out):
+    """kind 'typedcsv': the record read back equals what was stored - as a VALUE OF ITS TYPE: the
+    string label '03' is not the integer 3, the float32 nearest to 1/7 is not the double 0.14285715"""
+    lt = case["labeltype"]
+    o = out["runs"][0]
+    if o["status"] != "done":
+        return "typed-run-did-not-complete: %s" % o["status"]
+    d = case["datasets"][0]
+    s, p = case["strategies"][0]
+    reg = case["task"] == "tsr"
+    for fo, it, recs in o["loaded"]:
+        if recs is None or len(recs) != 1:
+            return "read-back-fails-after-complete-run: fold %d part %s" % (fo, ITEMS[it])
+        tr, te = out["folds"][0][fo]
+        idx = tr if it == 0 else te
+        st = _dbl_fit(p, [d["xs"][i] for i in tr], [d["ys"][i] for i in tr])
+        want_t = [_typed(float(d["ys"][i]) if lt == "f32" else _lab(d["ys"][i], lt)) for i in idx]
+        want_p = [_typed(_lab(_dbl_pred(reg, p, st, d["xs"][i]), lt)) for i in idx]
+        _, _, _, yt, yp = recs[0]
+        for what, got, want in (("true value", yt, want_t), ("prediction", yp, want_p)):
+            if got != want:
+                if len(got) != len(want):
+                    return "read-back-not-equal-to-stored: value: %d %ss read back for %d stored" % (
+                        len(got), what, len(want))
+                bad = [(a, b) for a, b in zip(got, want) if a != b]
+                # is it ONLY the type that was lost (the value is the one the stored text spells)?
+                only_type = all(_same_up_to_type(a, b) for a, b in bad)
+                return ("read-back-not-equal-to-stored: %s: %s stored as %s %s, read back as %s %s "
+                        "(%d of %d values of fold %d part %s)" % (
+                            "type only" if only_type else "value", what, bad[0][1][0], bad[0][1][1],
+                            bad[0][0][0], bad[0][0][1], len(bad), len(want), fo, ITEMS[it]))
+    return None
+
+
 def nontrivial(case, out):
     sts = [o["status"] for o in out["runs"]]
-    if case["kind"] == "floatcsv":
+    if case["kind"] in ("floatcsv", "typedcsv"):
         return sts == ["done"]
     skipped = any(o["status"] == "done" and o["nfit"] < len({tuple(x[:3]) for x in o["files"]})
                   for o in out["runs"])
@@ -936,7 +1040,7 @@ def shrink(case):
         d = dict(case)
         d["cv"] = ["kfold", 2]
         yield d
-    if case["task"] == "tsr" and case["kind"] != "floatcsv":
+    if case["task"] == "tsr" and case["kind"] not in ("floatcsv", "typedcsv"):
         d = dict(case)
         d["task"] = "tsc"
         yield d
@@ -1036,7 +1140,7 @@ def _cdata(case, folds):
 
 
 def coq_case(case, out):
-    if case["kind"] == "floatcsv":
+    if case["kind"] in ("floatcsv", "typedcsv"):
         return None
     runs = clist(["(%s, %s)" % (_crunspec(r, case), _cobs(o, out["folds"]))
                   for r, o in zip(case["runs"], out["runs"])])
